@@ -23,6 +23,9 @@ AbsNoKey  == [ctr |-> 0, tag |-> "none"]
 AbsNoSig  == <<"nosig">>
 
 AbsFresh(k) == Live(0)
+(* walk generation for long lifetimes: the walk's key starts ten signatures before its end (the harness patches the *)
+(* counter of the fresh key; TraceApi takes the start counter from the keygen event)                                *)
+AbsFreshLate(k) == Live(TotalSigs - 10)
 AbsSignable(s) == s.tag = "live" /\ s.ctr < TotalSigs
 AbsSucc(s) == IF NoAdvance THEN s
               ELSE IF s.ctr >= TotalSigs - 1 THEN WipedS ELSE Live(s.ctr + 1)
@@ -59,6 +62,8 @@ H111 == <<1, 1, 1>>
 H212 == <<2, 1, 2>>
 H2 == <<2>>
 H22 == <<2, 2>>
+H25 == <<2, 5>>
+H52 == <<5, 2>>
 
 (* keep the model finite: bad-key calls and lifetime queries do not change the state, so no bound is needed *)
 View == <<store, mem, latest, call, released, nAcc, watch>>
